@@ -49,12 +49,13 @@ def name_ok(p: bytes):
     return b"/" not in p and p not in (b".", b"..")
 
 
-def build_spec(p: bytes):
+def build_spec(p: bytes, ncr=None):
+    ncr = p if ncr is None else ncr
     """One world with the payload in every content-derived echo position."""
     spec = {
         "title": {"page.html": b"<html><head><title>" + p + b"</title></head><body>x</body></html>\n",
                   # the same payload spelled as numeric character references
-                  "ncr.html": b"<html><head><title>T " + b"".join(b"&#%d;" % c for c in p) + b" end</title></head><body>x</body></html>\n"},
+                  "ncr.html": b"<html><head><title>T " + b"".join(b"&#%d;" % c for c in ncr) + b" end</title></head><body>x</body></html>\n"},
         "mail": {"box.mbox": b"From a@b Thu Jan  1 00:00:01 2004\nFrom: a@b\nSubject: " + p + b"\n\nbody\n\nFrom c@d Thu Jan  1 00:00:02 2004\nSubject: plain\n\nb2\n"},
         "abs": {"f.txt": b"f\n", "f.txt.abstract": p + b"\n", ".abstract": b"dir " + p + b"\n"},
         "links": {"f.txt": b"f\n",
@@ -141,8 +142,8 @@ def shape(family, out: bytes):
     return ("http", status, hdrs, tuple(parsers.skeleton(body.decode("utf-8", "surrogateescape"))))
 
 
-def _serve_all(p):
-    w = rig.World(build_spec(p), handlers="default", cachetime=0, tag="c13")
+def _serve_all(p, ncr=None):
+    w = rig.World(build_spec(p, ncr), handlers="default", cachetime=0, tag="c13")
     res = {}
     try:
         for i, (label, fam, data) in enumerate(requests(p)):
@@ -156,7 +157,9 @@ def _serve_all(p):
 def check_payload(p):
     bad = []
     got = _serve_all(p)
-    ref = _serve_all(inert(p))
+    # (a title spelled with character references is ONE line of the file whatever it decodes to:
+    #  its inert counterpart is flat)
+    ref = _serve_all(inert(p), ncr=inert_flat(p))
     flat = _serve_all(inert_flat(p)) if inert(p) != inert_flat(p) else ref
     # request-derived positions: CR/LF in the request must not buy anything either
     for i, (label, fam, data, out, err) in flat.items():
